@@ -65,6 +65,24 @@ class Arr:
     def ravel(self):
         return Arr([x for r in self.data for x in r]) if self.two else Arr(list(self.data))
 
+    def reshape(self, shape):
+        flat = self.flat_list()
+        r, c = shape
+        if r == -1:
+            r = len(flat) // c if c else 0
+        if c == -1:
+            c = len(flat) // r if r else 0
+        if r * c != len(flat):
+            raise ValueError("cannot reshape")
+        return Arr([flat[i * c:(i + 1) * c] for i in range(r)], True)
+
+    @property
+    def T(self):
+        if not self.two:
+            return Arr(list(self.data))
+        rows = self.data
+        return Arr([[rows[i][j] for i in range(len(rows))] for j in range(len(rows[0]) if rows else 0)], True)
+
     flatten = ravel
 
     def tolist(self):
@@ -105,6 +123,13 @@ class NumpyStub:
     int_t = int
     float64 = float
     int64 = int
+
+    @staticmethod
+    def array(x, *a, **k):
+        x = list(x)
+        if x and isinstance(x[0], (list, tuple)):
+            return Arr([list(r) for r in x], True)
+        return Arr(x)
 
     @staticmethod
     def loadtxt(path, *a, **k):
@@ -401,4 +426,104 @@ def search_dispatch(pyx):
         logging.disable(logging.NOTSET)
         import shutil
         shutil.rmtree(tmp, ignore_errors=True)
+    return bad
+
+
+# ------------------------------------------------------------------------------------------- the epilogue
+
+class _Mat:
+    """a membership matrix as the epilogue sees it"""
+
+    def __init__(self, n, k, base):
+        self.n, self.k, self.base = n, k, base
+
+    def get_nrows(self):
+        return self.n
+
+    def get_ncols(self):
+        return self.k
+
+    def __call__(self, i, j):
+        return self.base + 1000.0 * i + j + 0.5
+
+
+def python_epilogue(pyx):
+    m = re.search(r"\ndef run\((.*?)\):\n", pyx, flags=re.S)
+    if not m:
+        return None
+    body = pyx[m.end():]
+    if "\n    finally:\n" not in body:
+        return None
+    epi = body[body.index("\n    finally:\n") + len("\n    finally:\n"):]
+    lines = [re.sub(r"(^|\s)#.*$", "", l).rstrip() for l in epi.split("\n")]
+    # drop the body of `finally:` (deeper indentation) and stop at the next top-level definition
+    out = []
+    for l in lines:
+        if not l.strip():
+            continue
+        if l.startswith("        ") and not out:
+            continue            # still inside `finally:`
+        if not l.startswith("    "):
+            break
+        out.append(l)
+    if not out or not out[-1].strip().startswith("return"):
+        return None
+    return "def epi(labels, c_u, c_v, c_affinity, nof_layers, nof_groups, directed, assortative, report):\n" + "\n".join(out)
+
+
+def search_epilogue(pyx):
+    """None: could not run it.  Otherwise the failing cases: rows of u / v are label and row, v is None exactly for
+    undirected runs, block l of the affinity shows entry (k,q) of layer l (flat l*K*K + q*K + k; K values when assortative)"""
+    src = python_epilogue(pyx)
+    if src is None:
+        return None
+    ns = {"numpy": NumpyStub, "np": NumpyStub}
+    try:
+        exec(compile(src, "<pyx epilogue>", "exec"), ns)
+    except Exception:
+        return None
+    epi = ns["epi"]
+    bad = []
+    for N, K, L in ((3, 2, 2), (2, 3, 1), (4, 2, 3)):
+        labels = [7 * i + 3 for i in range(N)]
+        cu, cv = _Mat(N, K, 0.0), _Mat(N, K, 50000.0)
+        for directed in (True, 1, False, 0, None):
+            for assort in (True, 1, False, 0, None):
+                size = (K if assort else K * K) * L
+                caff = [0.25 + p for p in range(size)]
+                rep = object()
+                case = {"N": N, "K": K, "L": L, "directed": repr(directed), "assortative": repr(assort)}
+                try:
+                    r = epi(labels, cu, cv, list(caff), L, K, directed, assort, rep)
+                    u, v, aff, rp = r
+                except Exception as e:
+                    return None
+                what = []
+                try:
+                    if u.tolist() != [[labels[i]] + [cu(i, j) for j in range(K)] for i in range(N)]:
+                        what.append("rows of u are not label and membership row")
+                    if bool(directed):
+                        if v is None or v.tolist() != [[labels[i]] + [cv(i, j) for j in range(K)] for i in range(N)]:
+                            what.append("v of a directed run is not label and in-membership row")
+                    elif v is not None:
+                        what.append("v of an undirected run is not None")
+                    if len(aff) != L:
+                        what.append("%d affinity blocks for %d layers" % (len(aff), L))
+                    else:
+                        for l in range(L):
+                            if assort:
+                                want = [caff[l * K + k] for k in range(K)]
+                                got = aff[l].tolist()
+                            else:
+                                want = [[caff[l * K * K + q * K + k] for q in range(K)] for k in range(K)]
+                                got = aff[l].tolist()
+                            if got != want:
+                                what.append("affinity block %d is %s, entry (k,q) of layer l lives at l*K*K + q*K + k: %s" % (l, got, want))
+                                break
+                    if rp is not rep:
+                        what.append("the report returned is not the run's report")
+                except Exception:
+                    what.append("the returned objects are not arrays of the documented form")
+                if what:
+                    bad.append({"case": case, "what": "; ".join(what)})
     return bad
